@@ -16,6 +16,9 @@
 int prim_run (int alg, const uint8_t *msg, size_t len, const uint8_t *key, size_t klen,
               void *ctxbuf, size_t *ctx_used, uint8_t *out);
 const char *prim_name (int alg);
+/* workload helper: spell a yescrypt setting with arbitrary parameters through the tree's own encoder */
+int gen_yescrypt_setting (unsigned flags, unsigned long long N, unsigned r, unsigned p, unsigned t,
+                          const unsigned char *salt, size_t saltlen, char *out, size_t outlen);
 
 const char *
 prim_name (int alg)
@@ -72,4 +75,20 @@ prim_run (int alg, const uint8_t *msg, size_t len, const uint8_t *key, size_t kl
     default:
       return 0;
     }
+}
+
+#if INCLUDE_yescrypt || INCLUDE_gost_yescrypt || INCLUDE_scrypt
+#include "alg-yescrypt.h"
+#endif
+int
+gen_yescrypt_setting (unsigned flags, unsigned long long N, unsigned r, unsigned p, unsigned t,
+                      const unsigned char *salt, size_t saltlen, char *out, size_t outlen)
+{
+#if INCLUDE_yescrypt || INCLUDE_gost_yescrypt
+  yescrypt_params_t params = { .flags = flags, .N = N, .r = r, .p = p, .t = t, .g = 0, .NROM = 0 };
+  return yescrypt_encode_params_r (&params, salt, saltlen, (uint8_t *) out, outlen) ? 1 : 0;
+#else
+  (void) flags; (void) N; (void) r; (void) p; (void) t; (void) salt; (void) saltlen; (void) out; (void) outlen;
+  return 0;
+#endif
 }
